@@ -276,3 +276,39 @@ pub fn run_td_case(line: &str) {
     }
     outln!(".");
 }
+
+/// `SK` cases: a streaming content handler writes a script of `write_utf8_chunk` / `write_str` calls into `<p></p>` (UTF-8
+/// document); per call ok / error, and the bytes that reached the output between `<p>` and `</p>` (compared with
+/// coq/model/StreamSink.v)
+pub fn run_sk_case(line: &str) {
+    let m = kv(line);
+    let id = line.split(' ').nth(1).unwrap();
+    outln!("C {id}");
+    outln!("S e0");
+    let ct = if m.get("ct").map(|s| s.as_str()) == Some("t") { ContentType::Text } else { ContentType::Html };
+    let ops: Vec<(bool, Vec<u8>)> = m.get("ops").map(|s| s.as_str()).unwrap_or("").split(',').filter(|o| !o.is_empty()).map(|o| (o.starts_with('u'), unhex(&o[1..]))).collect();
+    let log: std::sync::Arc<std::sync::Mutex<Vec<String>>> = std::sync::Arc::new(std::sync::Mutex::new(vec![]));
+    let out: Rc<RefCell<Vec<u8>>> = Rc::new(RefCell::new(vec![]));
+    let (l2, o2) = (log.clone(), out.clone());
+    let settings = Settings::new().append_element_content_handler((Cow::Owned("p".parse::<Selector>().unwrap()), ElementContentHandlers::default().element(move |e: &mut Element<'_, '_>| {
+        let (ops, l3) = (ops.clone(), l2.clone());
+        e.streaming_append(lol_html::streaming!(move |sink: &mut lol_html::html_content::StreamingHandlerSink<'_>| {
+            for (k, (utf8, f)) in ops.iter().enumerate() {
+                if *utf8 {
+                    match sink.write_utf8_chunk(f, ct) { Ok(()) => l3.lock().unwrap().push(format!("E K {k} k")), Err(e) => { l3.lock().unwrap().push(format!("E K {k} e")); return Err(e.into()); } }
+                } else { sink.write_str(std::str::from_utf8(f).unwrap_or("\u{fffd}"), ct); l3.lock().unwrap().push(format!("E K {k} k")); }
+            }
+            Ok(())
+        }));
+        Ok(())
+    })));
+    let mut rw = HtmlRewriter::new(settings, move |c: &[u8]| o2.borrow_mut().extend_from_slice(c));
+    let res = catch_unwind(AssertUnwindSafe(move || { rw.write(b"<p></p>")?; rw.end() }));
+    for l in log.lock().unwrap().drain(..) { outln!("{l}"); }
+    let bytes = out.borrow().clone();
+    let body = bytes.strip_prefix(b"<p>").unwrap_or(&bytes);
+    let body = body.strip_suffix(b"</p>").unwrap_or(body);
+    outln!("S c{}", hex(body));
+    outln!("R 0 {}", match res { Ok(Ok(())) => "ok".to_string(), Ok(Err(e)) => err_str(&e).to_string(), Err(_) => "panic:impl".to_string() });
+    outln!(".");
+}
